@@ -352,11 +352,11 @@ def case_composed(B, cfg):
             cols = list(range(split[0])) + [split[0] + j for j in order_in]
             Xn = [[[X[s][o][c] for c in cols] for o in range(n_obs)]
                   for s in range(n_sim)]
-            B.eq('nested composition, inner times re-ordered: score '
-                 'unchanged', outer.compute_log_likelihood(ps.arr(B, Xn)), v)
+            B.eq('nested composition, inner times re-ordered %r: score '
+                 'unchanged' % (order_in,), outer.compute_log_likelihood(ps.arr(B, Xn)), v)
             scn, sen = outer.compute_sensitivities(ps.arr(B, Xn))
-            B.eq('nested composition, inner times re-ordered: S1 score',
-                 scn, v)
+            B.eq('nested composition, inner times re-ordered %r: S1 score'
+                 % (order_in,), scn, v)
             _, gn = B.grad(lambda xs: build().compute_log_likelihood(
                 ps.arr(B, [[[xs[(s * n_obs + o) * n_t + t]
                              for t in range(n_t)] for o in range(n_obs)]
@@ -366,8 +366,9 @@ def case_composed(B, cfg):
             for s in range(n_sim):
                 for o in range(n_obs):
                     for k, c in enumerate(cols):
-                        B.eq('nested composition, inner times re-ordered: '
-                             'sens[%d,%d,%d] in input order' % (s, o, k),
+                        B.eq('nested composition, inner times re-ordered %r: '
+                             'sens[%d,%d,%d] in input order'
+                             % (order_in, s, o, k),
                              sen[s][o][k], gn[(s * n_obs + o) * n_t + c])
     flat = [X[s][o][t] for s in range(n_sim) for o in range(n_obs)
             for t in range(n_t)]
